@@ -395,3 +395,40 @@ def run(ctx, rep):
                    "read_only operand: %s" % (op_const(ro_op) or sorted(tp, key=str)), where, fn=f.path, key="C10.flag-carried|%s|#%d" % (mir.short(f.path), i))
     rep.floor("C10.Ident construction sites", n_sites, 7)
     rep.floor("C10.Ident constructions derived from another Ident", n_derived, 2)
+    scope_discipline(F, rep)
+
+
+def scope_discipline(F, rep):
+    """Function parameters become names of the *function's* scope only.  Parser::function_parameters is also used to read a signature ahead of
+    time (class pre-walk, bodiless functions) with add_to_scope_dependencies = false: on those paths it must not register the parameters in
+    the current (class / module) scope, or a parameter of one method shadows a module constant of the same name in its sibling methods --
+    whose const check then looks at the parameter.  (a) every registration in function_parameters is on the true edge of a test of that flag;
+    (b) every caller that passes `true` has pushed the function scope first."""
+    fp = F.fn("compiler::parser::Parser::function_parameters")
+    if fp is None:
+        raise AnchorMissing("Parser::function_parameters")
+    REG = ("compiler::ast::ident::Ident::link_force_no_inherit", "compiler::parser::AssocFileData::add_dependency",
+           "compiler::ast::ident::Ident::link_from_pointed_type_with_lookup")
+    regs = [c for c in fp.calls() if c.matches(REG)]
+    rep.floor("C10.scope registrations in function_parameters", len(regs), 2)
+    flag = 2   # add_to_scope_dependencies
+    der = fp.derived([flag])
+    sws = [x for x in rules.bool_switches(fp, der) if x[3] is not None]
+    removed = {(bb, t_t if pol else f_t) for bb, t_t, f_t, pol in sws}
+    reach = fp.reachable(0, removed_edges=removed) if sws else set(range(len(fp.blocks)))
+    bad = [c for c in regs if c.bb in reach]
+    rep.ob("C10.scope", "function_parameters registers parameter names in the current scope only when asked to (add_to_scope_dependencies)",
+           "violated" if bad or not sws else "ok",
+           "registration reachable with the flag false: %s" % [(mir.short(c.callee()), c.span) for c in bad][:3] if bad else "", fp.span, fn=fp.path,
+           key="C10.scope|function_parameters|registration-guarded")
+    n = 0
+    for f, c in F.callers_of("compiler::parser::Parser::function_parameters"):
+        k = op_const(c.args[1]) if len(c.args) > 1 else None
+        if k is None or k.get("int") != "1":
+            continue
+        n += 1
+        pushes = f.calls_to("compiler::parser::AssocFileData::push_function")
+        ok = bool(pushes) and rules.call_dominates(f, pushes, c.bb)
+        rep.ob("C10.scope", "%s registers the parameters after pushing the function's own scope" % mir.short(f.path), "ok" if ok else "violated", "", c.span,
+               fn=f.path, key="C10.scope|%s|push-before-register" % mir.short(f.path))
+    rep.floor("C10.callers registering parameters", n, 3)
